@@ -473,7 +473,9 @@ MANIFEST = dict(
          "at most once, exactly once by the time its wrapper is released or dead, not before, never after gc(p, None); "
          "release is idempotent; a from_buffer view keeps its source alive and locked exactly until released or dead; "
          "the struct behind ffi.new('struct *') lives while p or p[0] does; from_handle on a live handle's address returns "
-         "the object given to new_handle; live objects have distinct addresses; no live object refers to a dead one.",
+         "the object given to new_handle; every new_handle call makes a new handle object, and live handles have distinct "
+         "addresses under runtime hypothesis R2 (the allocator never returns memory in use); no live object refers to "
+         "a dead one; whatever the collector frees is finalised.",
     note="Runtime hypotheses R1-R3 (CPython frees only garbage, once; fresh addresses; destructors do not resurrect) are "
          "guards of the model's runtime events. Callbacks (the third owning kind) are C29's subject.",
     design_ref="DESIGN.md §4 C21")
